@@ -24,13 +24,14 @@ Definition run_c08_atn (s : sx) : sx :=
   | _ => bad_request
   end.
 
-(* [nodes edges lat x y order] -> [] (None) | [[sep...]] ; error 2 = adjacent *)
+(* [nodes edges lat x y order] -> [] (None) | [[sep...]] ; error 2 = adjacent.
+   [order] is used as the set-iteration priority in every pass of the latent loop and in the removal loop *)
 Definition run_c08_minsep (s : sx) : sx :=
   match s with
   | SL [sn; se; sl; sx_; sy; so] =>
       match dec_graph sn se, sx_list sx_nat sl, sx_nat sx_, sx_nat sy, sx_list sx_nat so with
       | Some g, Some lat, Some x, Some y, Some ord =>
-          match minimal_dseparator g lat x y ord with
+          match minimal_dseparator g lat x y (fun _ => ord) ord with
           | None => sx_err 2
           | Some r => sx_ok (of_option (of_list of_nat) r)
           end
@@ -54,6 +55,21 @@ Definition run_c08_misc (s : sx) : sx :=
                       of_list of_nat (nondesc_minus_parents g v);
                       of_list of_nat (anc_of g ns) ])
       | _, _, _ => bad_request
+      end
+  | _ => bad_request
+  end.
+
+(* [nodes edges lat incl start observed] -> the d-separated set asserted by get_independencies for
+   (start, observed); error 1 = start/observed not drawn as the code draws them *)
+Definition run_c08_dsep (s : sx) : sx :=
+  match s with
+  | SL [sn; se; sl; si; ss; sz] =>
+      match dec_graph sn se, sx_list sx_nat sl, sx_bool si, sx_nat ss, sx_list sx_nat sz with
+      | Some g, Some lat, Some incl, Some x, Some Z =>
+          if memn x (nodes g) && (incl || negb (memn x lat)) && subsetb Z (indep_rest g lat incl x)
+          then sx_ok (of_list of_nat (dsep_vars g lat incl x Z))
+          else sx_err 1
+      | _, _, _, _, _ => bad_request
       end
   | _ => bad_request
   end.
